@@ -987,8 +987,13 @@ class HistogramBase(abc.ABC):
         if np.isscalar(other):
             array = np.asarray(other)
             scalar = cast(float, other)
+            factor_dtype = array.dtype
+            if factor_dtype.kind == "i":
+                # Narrow integer scalars (np.int16, np.int32) would make the
+                # products (and the squared factor in errors2) overflow.
+                factor_dtype = np.promote_types(factor_dtype, np.int64)
             try:
-                self._coerce_dtype(array.dtype)
+                self._coerce_dtype(factor_dtype)
             except ValueError as v:
                 raise TypeError(str(v)) from v
             self.frequencies = self.frequencies * scalar
